@@ -303,6 +303,7 @@ class C20(Prop):
                 sys.modules.pop(m, None)
         obs["ast_same"] = (dump0 is None) or (ast.dump(arg) == dump0)
         obs["located"] = located
+        obs["fixes"] = G.probe_fixes()
         return obs
 
     # -- oracle ----------------------------------------------------------------
@@ -342,7 +343,8 @@ class C20(Prop):
                 attrs.append([i, a, val(j)])
         import builtins
         b = [[n, 100000 + k] for k, n in enumerate(builtins.__dict__.keys())]
-        req = dict(op="c20", mode=case["code"]["mode"], builtins=b, ns=ns, registry=dict(mods=mods, attrs=attrs))
+        req = dict(op="c20", mode=case["code"]["mode"], builtins=b, ns=ns, registry=dict(mods=mods, attrs=attrs),
+                   fixes=obs.get("fixes", {}))
         if case["code"]["mode"] == "dotted":
             req["name"] = case["code"]["name"]
         else:
